@@ -40,6 +40,8 @@ def respCase (inp impl : String) : CaseOut :=
         | _ => (s', nreq, out ++ ["timeout"], tags ++ ["result.timeout"])
       -- ed<n>: a reply racing the deadline of one request must not disturb the next one (C11.timeout_only_after_deadline:
       -- an error only once the timeout has passed; C11.correlated: the value is the reply to that very request)
+      -- sl: no reply was sent to that request (a Respond made while handling a senderless message answers nobody): timeout
+      else if op = "sl" then (s, nreq, out ++ ["timeout"], tags ++ ["no-reply-then-senderless-respond"])
       else if op.startsWith "ed" then (s, nreq, out ++ ["early=0 wrong=0"], tags ++ ["deadline-race"])
       else if op.startsWith "ids" then (s, nreq, out ++ ["dups=0"], tags ++ ["ids"])
       else if op.startsWith "qi" then
